@@ -58,10 +58,15 @@ def schedules(ctx, module, cfg, project, timeout=1200, extra_key="", max_len=600
     delta=True: a step only carries the keys that changed (the engines' driver accumulates them).  The result only depends on the spec, the cfg and
     this code, so it is cached under work/cache (like ctx.tlc(cache=True))."""
     import inspect
-    key = _sha(os.path.join(verif.TLA, module + ".tla"), os.path.join(verif.TLA, cfg),
-               os.path.abspath(pathcover.__file__), os.path.abspath(__file__))
+    spec_files = [os.path.join(verif.TLA, module + ".tla"), os.path.join(verif.TLA, cfg),
+                  os.path.abspath(pathcover.__file__)]
+    # modules the MC_ wrapper extends
+    if module.startswith("MC_") and os.path.exists(os.path.join(verif.TLA, module[3:] + ".tla")):
+        spec_files.append(os.path.join(verif.TLA, module[3:] + ".tla"))
+    key = _sha(*spec_files)
     import hashlib
-    key += hashlib.sha1((inspect.getsource(project) + extra_key + ("delta" if delta else "")
+    key += hashlib.sha1((inspect.getsource(project) + inspect.getsource(schedules) + inspect.getsource(_delta)
+                         + extra_key + ("delta" if delta else "")
                          + (inspect.getsource(project_init) if project_init else "")).encode()).hexdigest()[:8]
     cdir = os.path.join(verif.WORK, "cache")
     cpath = os.path.join(cdir, "sched-%s-%s.json" % (cfg.replace(".cfg", ""), key))
@@ -175,7 +180,7 @@ def shm_behaviours(ctx, cfg, timeout=1800):
 
 
 SHM_ACTIONS = ["wop", "wl1", "wb1", "ws", "wl2", "wb2", "rop", "l1", "e2", "lk"]
-SHM_GRAPHS = [("MC_AfcShm_g1.cfg", 3000), ("MC_AfcShm_g2.cfg", 2500)]
+SHM_GRAPHS = [("MC_AfcShm_g1.cfg", 2000), ("MC_AfcShm_g2.cfg", 1500)]
 
 
 def trace_line_to_run(trace_path, n):
@@ -208,12 +213,12 @@ def validate_history(ctx, prop, trace_path, beh, tag):
     return nev
 
 
-def shm_check(ctx, vh, prop, mc_cfgs, mutant):
+def shm_check(ctx, vh, prop, mc_cfgs, mutant, actions=None):
     """The common part of C40 / C41 / C42 on the shared-memory state."""
     # 1. design level: exhaustive TLC with every invariant of AfcShm
     for cfg in mc_cfgs:
         r = ctx.tlc("MC_AfcShm", cfg, timeout=3000, cache=True)
-        ctx.require_actions(r, SHM_ACTIONS)
+        ctx.require_actions(r, actions or SHM_ACTIONS)
     # 2. the invariant of this property is not vacuous: the spec-level mutant must be rejected
     sel = []
     if mutant:
@@ -233,7 +238,7 @@ def shm_check(ctx, vh, prop, mc_cfgs, mutant):
             beh = verif.sample(ctx.rng, beh, cap)
         tag = "shm-" + cfg[10:-4]
         trace = os.path.join(ctx.workdir, tag + ".trace.ndjson")
-        res = replay(ctx, vh, "shm", beh, tag=tag, opts={"only": prop, "trace": trace, "trace_max": 1500})
+        res = replay(ctx, vh, "shm", beh, tag=tag, opts={"only": prop, "trace": trace, "trace_max": 100000 if ctx.thorough else 500})
         ctx.absorb(res)
         nev = validate_history(ctx, prop, trace, beh, tag="trace-" + tag)
         graphs[cfg] = {"constants": cfg_constants(cfg), "states": info["states"], "transitions": info["transitions"],
